@@ -16,12 +16,12 @@ pub fn candidates(prop: &str) -> Vec<Value> {
             }}
         }
         "C04" => {
-            for g in ["G1", "G2"] { for sch in ["Basic", "MessageAugmentation", "ProofOfPossession"] { for kind in ["tc_forged_id_sig", "tc_id_u", "sc_id_points"] {
+            for g in ["G1", "G2"] { for sch in ["Basic", "MessageAugmentation", "ProofOfPossession"] { for kind in ["tc_forged_id_sig", "tc_id_u", "sc_id_points", "eg_id_pk"] {
                 v.push(json!({"call": "identity_payload", "group": g, "scheme": sch, "kind": kind}));
             }}}
         }
         "C15" => {
-            for g in ["G1", "G2"] { for kind in ["point_bytes", "commitment_scalars", "containers", "container_forms", "schemes", "serde_forms"] {
+            for g in ["G1", "G2"] { for kind in ["point_bytes", "commitment_scalars", "containers", "container_forms", "large_payloads", "schemes", "serde_forms"] {
                 v.push(json!({"call": "roundtrip", "group": g, "kind": kind}));
             }}
         }
@@ -29,6 +29,7 @@ pub fn candidates(prop: &str) -> Vec<Value> {
             for g in ["G1", "G2"] { for kind in ["sc_prefix", "tc_short", "every_length", "share_sets", "accessors"] {
                 v.push(json!({"call": "total", "group": g, "kind": kind}));
             }}
+            for g in ["G1", "G2"] { v.push(json!({"call": "decoders", "group": g, "kind": "json_no_panic"})); }
         }
         "C03" => {
             for g in ["G1", "G2"] { for kind in ["from_hash_entry_points", "keygen_reference"] {
@@ -39,7 +40,7 @@ pub fn candidates(prop: &str) -> Vec<Value> {
             for g in ["G1", "G2"] { for sch in ["Basic", "MessageAugmentation", "ProofOfPossession"] { for kind in ["sc_lib_to_ref", "sc_ref_to_lib", "tc_lib_to_ref", "pok_challenge_ref"] {
                 v.push(json!({"call": "interop", "group": g, "scheme": sch, "kind": kind}));
             }}}
-            if prop == "C18" { for g in ["G1", "G2"] { for kind in ["eg_transcript_default_generator", "eg_transcript_custom_generator"] {
+            if prop == "C18" { for g in ["G1", "G2"] { for kind in ["eg_transcript_default_generator", "eg_transcript_custom_generator", "json_layout"] {
                 v.push(json!({"call": "interop", "group": g, "scheme": "Basic", "kind": kind}));
             }}}
         }
@@ -214,7 +215,7 @@ fn decoders<C: BlsSignatureImpl + PartialEq + Copy + Send + Sync + serde::Serial
             for (name, enc, accepts) in point_containers(&s) { for l in 0..enc.len() { if accepts(&enc[..l]) { return Some(format!("{}: accepted an encoding truncated to {} of {} bytes", name, l, enc.len())); } } }
             None
         }
-        "json_lengths" => {
+        "json_lengths" | "json_no_panic" => {
             // human-readable documents of the share containers: every hex run cut short or extended is refused
             fn variants(doc: &str) -> Vec<String> {
                 let b = doc.as_bytes(); let mut out = vec![]; let mut i = 0;
@@ -241,6 +242,7 @@ fn decoders<C: BlsSignatureImpl + PartialEq + Copy + Send + Sync + serde::Serial
             ];
             for (name, doc, accepts) in docs {
                 if !accepts(&doc) { return Some(format!("{}: its own JSON document is rejected", name)); }
+                if kind == "json_no_panic" { for v in variants(&doc) { let _ = accepts(&v); } for cut in 0..doc.len() { if doc.is_char_boundary(cut) { let _ = accepts(&doc[..cut]); } } let _ = accepts("\"\""); continue; }
                 for v in variants(&doc) { if accepts(&v) { return Some(format!("{}: accepted a JSON document whose hex payload is {} characters longer (negative: shorter) than the well-formed one", name, v.len() as i64 - doc.len() as i64)); } }
             }
             None
@@ -409,6 +411,20 @@ fn roundtrip<C: BlsSignatureImpl + PartialEq + Copy + Send + Sync + 'static>(c: 
             forms!(SecretKeyShare<C>, "SecretKeyShare", Vec::from(sh));
             forms!(PublicKeyShare<C>, "PublicKeyShare", Vec::from(&sh.public_key().ok()?));
             forms!(SignatureShare<C>, "SignatureShare", Vec::from(&sh.sign(SignatureSchemes::Basic, b"m").ok()?));
+            None
+        }
+        "large_payloads" => {
+            // payload-carrying types at the sizes where the serde_bare length prefix grows (128, 16384)
+            for l in [0usize, 1, 126, 127, 128, 129, 300, 16383, 16384, 16385] {
+                let m: Vec<u8> = (0..l).map(|i| (i * 11 + 3) as u8).collect();
+                for sch in [SignatureSchemes::Basic, SignatureSchemes::ProofOfPossession] {
+                    let sc = s.pk.sign_crypt(sch, &m); let v: Vec<u8> = Vec::from(&sc);
+                    match SignCryptCiphertext::<C>::try_from(v.as_slice()) { Ok(x) if x == sc => {}, Ok(_) => return Some(format!("SignCryptCiphertext with a {}-byte message comes back as another value", l)), Err(e) => return Some(format!("SignCryptCiphertext with a {}-byte message: its own bytes are rejected: {}", l, e)) }
+                    match SignCryptCiphertext::<C>::try_from(v.clone()) { Ok(x) if x == sc => {}, _ => return Some(format!("SignCryptCiphertext with a {}-byte message: Vec<u8> form does not round-trip", l)) }
+                    let tc = s.pk.encrypt_time_lock(sch, &m, b"id").ok()?; let v: Vec<u8> = Vec::from(&tc);
+                    match TimeCryptCiphertext::<C>::try_from(v.as_slice()) { Ok(x) if x == tc => {}, Ok(_) => return Some(format!("TimeCryptCiphertext with a {}-byte message comes back as another value", l)), Err(e) => return Some(format!("TimeCryptCiphertext with a {}-byte message: its own bytes are rejected: {}", l, e)) }
+                }
+            }
             None
         }
         "schemes" => {
@@ -595,9 +611,21 @@ fn first_repeat(v: &[(String, Vec<u8>)]) -> Option<String> {
     for (k, b) in v { if let Some(_) = seen.insert((k.clone(), b.clone()), ()) { return Some(k.clone()); } }
     None
 }
+/// the same ephemeral SCALAR used in two different roles shows as the same multiple of the generator under two labels
+fn cross_role_repeat(v: &[(String, Vec<u8>)]) -> Option<String> {
+    let on_generator = ["sign_crypt.u", "encrypt_time_lock.u", "encrypt_key_el_gamal.c1", "encrypt_key_el_gamal_with_proof.c1", "encrypt_key_el_gamal_with_proof.r1"];
+    let mut seen: std::collections::HashMap<Vec<u8>, String> = std::collections::HashMap::new();
+    for (k, b) in v {
+        if !on_generator.contains(&k.as_str()) { continue; }
+        if let Some(prev) = seen.insert(b.clone(), k.clone()) { return Some(format!("{} of one call equals {} of another call", prev, k)); }
+    }
+    None
+}
 fn fresh<C: BlsSignatureImpl + PartialEq + Copy + Send + Sync + 'static>(c: &Value) -> Option<String> {
     match c["kind"].as_str().unwrap() {
-        "sequence" => { let s = sample::<C>(); first_repeat(&ephemerals(&s, 64)).map(|k| format!("{}: the same ephemeral value was produced by two calls in one thread", k)) }
+        "sequence" => { let s = sample::<C>(); let e = ephemerals(&s, 64);
+            first_repeat(&e).map(|k| format!("{}: the same ephemeral value was produced by two calls in one thread", k))
+                .or_else(|| cross_role_repeat(&e).map(|k| format!("an ephemeral scalar is reused across calls: {}", k))) }
         _ => {
             let hs: Vec<std::thread::JoinHandle<Vec<(String, Vec<u8>)>>> = (0..4).map(|_| std::thread::spawn(|| { let s = sample::<C>(); ephemerals(&s, 16) })).collect();
             let mut all = vec![]; for h in hs { all.extend(h.join().ok()?); }
@@ -623,7 +651,7 @@ fn unframe(p: &[u8]) -> Option<Vec<u8>> { let (l, k) = unleb(p)?; let l = l as u
 fn dst_of<C: BlsSignatureImpl>(s: SignatureSchemes) -> &'static [u8] {
     match s { SignatureSchemes::Basic => <C as BlsSignatureBasic>::DST, SignatureSchemes::MessageAugmentation => <C as BlsSignatureMessageAugmentation>::DST, SignatureSchemes::ProofOfPossession => <C as BlsSignaturePop>::SIG_DST }
 }
-fn interop<C: BlsSignatureImpl + PartialEq + Copy + Send + Sync + 'static>(c: &Value) -> Option<String> {
+fn interop<C: BlsSignatureImpl + PartialEq + Copy + Send + Sync + serde::Serialize + serde::de::DeserializeOwned + 'static>(c: &Value) -> Option<String> {
     let s = sample::<C>();
     let sch = match c["scheme"].as_str().unwrap_or("") { "Basic" => SignatureSchemes::Basic, "MessageAugmentation" => SignatureSchemes::MessageAugmentation, _ => SignatureSchemes::ProofOfPossession };
     let lens: Vec<usize> = (0..=80).chain([100usize, 127, 128, 129, 255, 256, 257, 1000]).collect();
@@ -690,6 +718,25 @@ fn interop<C: BlsSignatureImpl + PartialEq + Copy + Send + Sync + 'static>(c: &V
             let (mp2, bp2) = (b + y * msg, r + y * b);
             if let Err(e) = <C as BlsElGamal>::verify_proof(s.pk.0, arg, d1, d2, mp2, bp2, y) { return Some(format!("the library rejects a reference-made ElGamal proof: {}", e)); }
             match <C as BlsElGamal>::verify_and_decrypt(s.sk.0, arg, d1, d2, mp2, bp2, y) { Ok(p) if p == gen * msg => {}, _ => return Some("verify_and_decrypt does not open a reference-made ElGamal proof".into()) }
+            None
+        }
+        "json_layout" => {
+            // the human-readable (JSON) layout of the ciphertext types as the pinned release writes it, read and
+            // written by an independent reader / writer: byte strings are arrays of numbers, points are hex strings
+            let m = b"json layout".to_vec();
+            let tc = s.pk.encrypt_time_lock(SignatureSchemes::Basic, &m, b"id").ok()?;
+            let j = serde_json::to_value(&tc).ok()?;
+            let arr = |v: &Value, n: Option<usize>| -> bool { v.as_array().map(|a| n.map(|k| a.len() == k).unwrap_or(true) && a.iter().all(|x| x.as_u64().map(|y| y < 256).unwrap_or(false))).unwrap_or(false) };
+            if !arr(&j["v"], Some(32)) { return Some(format!("TimeCryptCiphertext JSON: `v` is not an array of 32 numbers as in the pinned release: {}", j["v"])); }
+            if !arr(&j["w"], None) { return Some("TimeCryptCiphertext JSON: `w` is not an array of numbers as in the pinned release".into()); }
+            if !j["u"].is_string() { return Some("TimeCryptCiphertext JSON: `u` is not a hex string as in the pinned release".into()); }
+            let doc = json!({"u": hex::encode(tc.u.to_bytes().as_ref()), "v": tc.v.to_vec(), "w": tc.w.clone(), "scheme": j["scheme"].clone()});
+            match serde_json::from_str::<TimeCryptCiphertext<C>>(&doc.to_string()) { Ok(x) if x == tc => {}, Ok(_) => return Some("TimeCryptCiphertext: a JSON document in the pinned layout decodes to another value".into()), Err(e) => return Some(format!("TimeCryptCiphertext: a JSON document in the pinned layout is rejected: {}", e)) }
+            let sc = s.pk.sign_crypt(SignatureSchemes::Basic, &m);
+            let j = serde_json::to_value(&sc).ok()?;
+            if !arr(&j["v"], None) || !j["u"].is_string() || !j["w"].is_string() { return Some("SignCryptCiphertext JSON layout differs from the pinned release (u, w hex strings; v an array of numbers)".into()); }
+            let doc = json!({"u": hex::encode(sc.u.to_bytes().as_ref()), "v": sc.v.clone(), "w": hex::encode(sc.w.to_bytes().as_ref()), "scheme": j["scheme"].clone()});
+            match serde_json::from_str::<SignCryptCiphertext<C>>(&doc.to_string()) { Ok(x) if x == sc => {}, _ => return Some("SignCryptCiphertext: a JSON document in the pinned layout is rejected or decodes to another value".into()) }
             None
         }
         "pok_challenge_ref" => {
@@ -760,6 +807,22 @@ fn identity_payload<C: BlsSignatureImpl + PartialEq + Copy + Send + Sync + 'stat
             let bad = TimeCryptCiphertext::<C> { u: id_pk, v: ct.v, w: ct.w.clone(), scheme: sch };
             if is_open(bad.decrypt(&sig)) || is_open(bad.decrypt(&mk(id_sig))) { return Some("a time-lock ciphertext whose U is the identity opens".into()); }
             if is_open(ct.decrypt(&mk(id_sig))) { return Some("an honest time-lock ciphertext opens under the identity signature".into()); }
+            None
+        }
+        "eg_id_pk" => {
+            // encryption to the identity public key is refused on every ElGamal path that returns a Result
+            use rand_core::SeedableRng;
+            let idk = PublicKey::<C>(id_pk);
+            if idk.encrypt_key_el_gamal(&s.sk).is_ok() { return Some("encrypt_key_el_gamal to the identity public key returned Ok".into()); }
+            if idk.encrypt_key_el_gamal_with_proof(&s.sk).is_ok() { return Some("encrypt_key_el_gamal_with_proof to the identity public key returned Ok".into()); }
+            let rng = || rand_chacha::ChaCha20Rng::from_seed([6u8; 32]);
+            let gen = <C as Pairing>::PublicKey::generator() * s.sk.0;
+            for g in [None, Some(gen)] {
+                if <C as BlsElGamal>::seal_scalar(id_pk, s.sk.0, g, None, rng()).is_ok() { return Some("seal_scalar to the identity public key returned Ok".into()); }
+                if <C as BlsElGamal>::seal_scalar_with_proof(id_pk, s.sk.0, g, None, rng()).is_ok() { return Some("seal_scalar_with_proof to the identity public key returned Ok".into()); }
+            }
+            if <C as BlsElGamal>::seal_scalar(s.pk.0, s.sk.0, Some(id_pk), None, rng()).is_ok() { return Some("seal_scalar with the identity as generator returned Ok".into()); }
+            if <C as BlsElGamal>::seal_point(id_pk, gen, None, rng()).is_ok() { return Some("seal_point to the identity public key returned Ok".into()); }
             None
         }
         _ => {
